@@ -35,7 +35,8 @@ Definition run_c14 (k : Z) (args : list (list Z)) : list (list Z) :=
     (* Flwdir.moving_average / moving_median(data, n, restrict_strord): main upstream from the default
        upstream area, Strahler order computed on the fly when restricting *)
     let sq := ns (arg 1 args) in
-    let upa := flwdir_upstream_area ds sq (ones (length ds)) in
+    (* arg 6: the node areas of a vector object in quarters (empty = unit areas); only their ranking matters *)
+    let upa := flwdir_upstream_area ds sq (match arg 6 args with [] => ones (length ds) | w => w end) in
     let main := main_upstream ds upa 0 in
     let so := if argz 2 args =? 0 then None else Some (strahler_order ds sq None) in
     if argz 3 args =? 0
